@@ -249,6 +249,9 @@ func (e *c10Env) try(input string, origin string) (accepted bool) {
 	q, err := ast.Parse(e.tbl, input)
 	if err != nil || q == nil {
 		e.c.Count("rejected", 1)
+		if e.n%7 == 0 {
+			e.bareCanary(input)
+		}
 		return false
 	}
 	for _, row := range e.rows {
@@ -260,6 +263,25 @@ func (e *c10Env) try(input string, origin string) (accepted bool) {
 		e.canary()
 	}
 	return true
+}
+
+// bareCanary: a query without a predicate, parsed right after a rejected input, matches every row (nothing of the
+// rejected text may survive into it).
+func (e *c10Env) bareCanary(after string) {
+	for _, text := range []string{"limit 3", "skip 1", "sort by sa", "sort by na desc limit 2"} {
+		q, err := ast.Parse(e.tbl, text)
+		if err != nil {
+			e.c.Violationf("C10 predicate-less query rejected after a rejected input", map[string]any{"query": text, "after": after}, "%v", err)
+			continue
+		}
+		for i, row := range e.rows {
+			if !q.EvalBool(row) {
+				e.c.Violationf("C10 predicate-less query does not match every row after a rejected input", map[string]any{"query": text, "after": after}, "%q evaluates to false on row %d (parsed as %s)", text, i, q.String())
+				break
+			}
+		}
+	}
+	e.c.Count("bare_canaries", 1)
 }
 
 func (e *c10Env) canary() {
